@@ -1,5 +1,6 @@
 """C08 - unbonding time-lock and forward-only batch lifecycle (DESIGN 6, C08)."""
 from ..callgraph import explore, storage_effects, site_guarded, written_value_in
+from ..ledger import lost_updates
 from ..expr import show, find, arith_args
 from .common import entry, msg_enum, variant_env, stored, where
 from .hub_common import (receive_handlers, subtree, release_loops, release_guard_preds, history_readers, history_writers,
@@ -40,6 +41,10 @@ def run(prog, world, sem, rep):
              "State.last_processed_batch is only assigned that key", 6)
     rep.rule("C08.e", "the applied exchange rates and initial withdraw rates recorded in the history entry are the State.X_exchange_rate values that "
              "multiply CurrentBatch.requested_X in the undelegated amount, and the pools are reduced by exactly those products", 6)
+
+    rep.rule("C08.f", "no lost update of the hub's single-value cells (State, CurrentBatch, Parameters, Config): in every execute variant a value "
+             "saved to such a cell that was computed from an earlier load has no other write of that cell - directly or inside a callee - "
+             "between the load and the save (a stale write-back would undo the release cursor, the batch id or the recorded balance)", 12)
 
     vs, recv, handlers = receive_handlers(prog, sem)
     ro = roll_over_fns(sem, vs)
@@ -242,3 +247,16 @@ def run(prog, world, sem, rep):
            "CURRENT_BATCH written on the withdraw path", where(lv.body))
     # sibling note (not a property clause)
     rep.note("sibling note: the WithdrawableUnbonded query compares time < t where the execute path uses time <= t")
+
+    # ---------------------------------------------------------------- C08.f lost updates (all hub variants)
+    ex = entry(prog, "hub")
+    adt_path, adt = msg_enum(prog, ex)
+    for vn in [x["name"] for x in adt["variants"]]:
+        vv = vs if vn == "Receive" else (wvs if vn == "WithdrawUnbonded" else explore(sem, ex, variant_env(prog, ex, vn)))
+        lu = lost_updates(sem, storage_effects(sem, vv))
+        det = "every saved single-value cell is computed from a load with no write in between"
+        if lu:
+            (sv, sbb, A, lbb, wv_, wbb, cell) = lu[0]
+            det = "%s saved at %s is computed from the load at line %d of %s, but %s writes the same cell in between (%s): the save writes the stale copy back" % (
+                cell.split("::")[-1], where(sv.body, sbb), A.body.blocks[lbb].term.line, A.body.path, wv_.body.path, where(wv_.body, wbb))
+        rep.ob("C08.f", "hub::%s saves no stale copy of a single-value cell" % vn, not lu, det, where(ex), key="C08.f | hub::%s" % vn)
